@@ -223,6 +223,16 @@ func c14Run(r *mon.Run, c *c14comp, idx int) {
 	var t *kssTranscript
 	var list gabi.ProofList
 	pv, stack := mon.Try(func() {
+		if idx%3 == 1 {
+			// a first attempt that is abandoned after the user's first message (the server was unreachable): the session is
+			// started again on the same builders with fresh randomisers
+			abandoned := map[string]*big.Int{"secretkey": randBig(jr, int(gabikeys.DefaultSystemParameters[1024].LmCommit))}
+			if _, _, e0 := gabi.KeyshareUserCommitmentRequest(builders, abandoned, kss.keys); e0 != nil {
+				err = e0
+				return
+			}
+			r.Add("sessions_restarted_on_the_same_builders", 1)
+		}
 		t, err = kss.run(builders, ctx, nonce, c.issig)
 		if err == nil {
 			list, err = kss.merge(builders, t)
